@@ -124,6 +124,18 @@ theorem C10_valid_iff_validate (B : Builtins) (a : VArgs) (o : VOut) (e : Envelo
   · rw [vResult_vstatus, vResult_valid]
     split <;> (try split) <;> simp
 
+/-- The downgrade of LENIENT / ULTRA is visible: a VALIDATED envelope of a call whose validator reported errors
+carries has_warnings = true (whenever the emit stage did not fail, i.e. status = success), also in compact mode. -/
+theorem C10_downgrade_flagged_validate (B : Builtins) (a : VArgs) (o : VOut) (e : Envelope)
+    (h : ValidateExec B a o = .ok e) (hv : e.vstatus = some .validated) (he : o.errs ≠ [])
+    (hemit : (raised o.raises .v_emit || (a.diffOnly && raised o.raises .v_diff)) = false) :
+    e.hasWarnings = some true := by
+  obtain ⟨hs, -, -⟩ := C10_validated_needs_schema_validate B a o e h hv
+  rcases validate_cases h with ⟨hb, -, -⟩ | ⟨-, -, p, -, rfl⟩
+  · exact absurd hv (Bypass_not_validated hb)
+  · unfold vResult
+    exact vPost_hasWarnings a o _ (vDecide_errors_in_warnings _ _ _ _ _ _ _ (by simpa [vHasSchema] using hs) he) hemit
+
 /-- Stability: if a call returned VALIDATED and its canonical text is validated again with the same schema
 argument, profile and flags, the answer is VALIDATED again — *given* (hypotheses, which are properties C01 and
 C09/C11 of other engines): the canonical text parses (`hparse`), the schema resolves as before (`hsearch`,
@@ -209,13 +221,23 @@ theorem C10_unknown_schema_write (B : Builtins) (a : WArgs) (o : WOut) (e : Enve
             · exact Or.inr (Or.inr (Or.inr hu))
       simp [hn, hs]
 
-/-- A parse failure of the text being written gives UNVALIDATED (parse_error_policy = "error"). -/
-theorem C10_parse_failure_write (B : Builtins) (a : WArgs) (o : WOut) (e : Envelope) (t : Bool)
+/-- A parse failure of the text being written gives UNVALIDATED — *provided* parse_error_policy is not "salvage".
+`_partial`: with lenient=true and parse_error_policy="salvage" the tool salvages the text into a document of its
+own making and validates that (known finding F100, class `salvage_policy_parse_failure`; negation below). -/
+theorem C10_parse_failure_write_partial (B : Builtins) (a : WArgs) (o : WOut) (e : Envelope) (t : Bool)
     (h : WriteExec B a o = .ok e) (hp : o.parse = .fails t) (hs : a.salvage = false) :
     e.vstatus = some .unvalidated := by
   rcases write_cases h with hb | ⟨hpre, -⟩
   · exact hb.1
   · rw [wPre_none_parse hpre hs] at hp; cases hp
+
+/-- F100, negation on the witness: unparseable text, lenient + salvage, builtin schema ⇒ VALIDATED. -/
+theorem C10_F100_salvage_overstates :
+    ∃ (a : WArgs) (o : WOut) (e : Envelope), a.salvage = true ∧ a.lenient = true ∧ o.parse = .fails false ∧
+      WriteExec [("META".toList, { name := some "META".toList, version := some "1.0.0".toList })] a o = .ok e ∧
+      e.vstatus = some .validated :=
+  ⟨{ schemaName := some "META".toList, lenient := true, salvage := true }, { parse := .fails false },
+   _, rfl, rfl, rfl, rfl, by decide⟩
 
 /-- INVALID comes with a non-empty validation_errors list and schema name / version.  (octave_write has no
 profile argument: it always behaves like STANDARD with strict=False.) -/
